@@ -286,8 +286,11 @@ func fioGffMeta(r *gff.Reader) string {
 	return fmt.Sprintf("m:%d:%s:%d:%s", r.Version, fioHexS(r.SourceVersion), r.Type, fioHexS(r.Name))
 }
 
+// The readers get the data through one of five io.Reader behaviours chosen from the content
+// (sioSource: all at once, one byte per Read, half reads, data together with io.EOF, 4096-byte
+// chunks); the reader models do not depend on it (Properties/C04_bufio).
 func fioReadBed(data []byte, n int) string {
-	r, err := bed.NewReader(bytes.NewReader(data), n)
+	r, err := bed.NewReader(sioSource(data), n)
 	if err != nil {
 		return "newreader:" + fioErr(err)
 	}
@@ -295,7 +298,7 @@ func fioReadBed(data []byte, n int) string {
 }
 
 func fioReadGff(data []byte) string {
-	r := gff.NewReader(bytes.NewReader(data))
+	r := gff.NewReader(sioSource(data))
 	s := fioReadAll(r, fioLineCount(data))
 	return s + " " + fioGffMeta(r)
 }
@@ -605,6 +608,10 @@ func fioBed(g *hx.Gen) fioBedIn {
 	var b fioBedIn
 	b.chrom = fioChrom(g)
 	b.name = fioText(g, " #;")
+	if g.Chance(0.02) {
+		// a physical line longer than bufio's 4096-byte buffer (and than two of them)
+		b.name = string(g.Letters("abcXYZ019_.:-+", g.Pick(4050, 4090, 4096, 4100, 5000, 8192, 9000)))
+	}
 	b.start, b.end, b.score = fioInt(g), fioInt(g), fioInt(g)
 	b.strand = g.Intn(3) - 1
 	b.ts, b.te = fioInt(g), fioInt(g)
